@@ -1434,6 +1434,7 @@ def arg_reduction(x, /, arg_func, axis=None, *, keepdims=False, split_every=None
     """A reduction that returns the array indexes, not the values."""
     dtype = nxp.__array_namespace_info__().default_dtypes(device=x.device)["indexing"]
     intermediate_dtype = [("i", dtype), ("v", x.dtype)]
+    axis = validate_axis(axis, x.ndim)  # normalize a negative axis
 
     # initial map does arg reduction on each block, and uses block id to find the absolute index within whole array
     chunks = tuple((1,) * len(c) if i == axis else c for i, c in enumerate(x.chunks))
@@ -1496,6 +1497,7 @@ def nanarg_reduction(x, /, arg_func, axis=None, *, keepdims=False, split_every=N
     """A reduction that returns the array indexes, not the values, and which raises for all-NaN slices."""
     dtype = nxp.__array_namespace_info__().default_dtypes(device=x.device)["indexing"]
     intermediate_dtype = [("i", dtype), ("v", x.dtype)]
+    axis = validate_axis(axis, x.ndim)  # normalize a negative axis
 
     # initial map does arg reduction on each block, and uses block id to find the absolute index within whole array
     chunks = tuple((1,) * len(c) if i == axis else c for i, c in enumerate(x.chunks))
